@@ -1,3 +1,4 @@
+import HttpcoreModel.Props.C13Multi
 import HttpcoreModel.H2
 /-!
 # C13 — HTTP/2 flow control is obeyed and never starves a transfer
